@@ -1,5 +1,5 @@
 #!/usr/bin/env python3
-# Prints the markdown table of seeded changes (DESIGN.md §8.7) from /verif/seeded/*/meta.json and check_output.txt.
+# Prints the markdown table of seeded changes (DESIGN.md §8.8) from /verif/seeded/*/meta.json and check_output.txt.
 import json, glob, os, re
 rows=[]
 for d in sorted(glob.glob('/verif/seeded/*/')):
